@@ -58,7 +58,24 @@ func ruleKeyUpdate(c *Ctx, r *Report) {
 			if strings.HasPrefix(short(s.Fn), "(dtls.handshakeConn)") {
 				continue // adapter
 			}
-			r.Check(s.Fn == cp, rule, "CommitLocalKeyUpdate<-"+short(s.Fn), c.ipos(s.Call), "commit requested only when a flight completes", "the key update is committed from outside completePostHandshakeFlight")
+			// in the completion function itself, or in a helper that only it calls
+			var onlyFrom func(fn *ssa.Function, d int) bool
+			onlyFrom = func(fn *ssa.Function, d int) bool {
+				if fn == cp {
+					return true
+				}
+				sites, complete := c.staticCallers(fn)
+				if !complete || len(sites) == 0 || d > 2 {
+					return false
+				}
+				for _, cs := range sites {
+					if _, isCall := cs.Call.(*ssa.Call); !isCall || !onlyFrom(cs.Fn, d+1) {
+						return false
+					}
+				}
+				return true
+			}
+			r.Check(onlyFrom(s.Fn, 0), rule, "CommitLocalKeyUpdate<-"+short(s.Fn), c.ipos(s.Call), "commit requested only when a flight completes", "the key update is committed from outside completePostHandshakeFlight")
 		}
 		for _, s := range c.CallsToName(short(cp)) {
 			call, ok := s.Call.(*ssa.Call)
@@ -83,7 +100,7 @@ func ruleKeyUpdate(c *Ctx, r *Report) {
 		// nil completion only together with the commit result
 		comp := findCalls(cp, nameHasSuffix("postHandshakeCompletion).complete"))
 		for _, x := range comp {
-			ls := c.Origins(x.Call.Args[len(x.Call.Args)-1], 0)
+			ls := c.Origins(x.Call.Args[len(x.Call.Args)-1], 1)
 			ok := allLeaves(ls, func(v ssa.Value) bool {
 				return isNilConst(v) || isCallResult(v, nameHasSuffix(".CommitLocalKeyUpdate")) || isFieldLoad(v, "internal/errors", "ErrNotImplemented") || strings.Contains(c.describe(v), "ErrNotImplemented")
 			})
